@@ -353,6 +353,17 @@ def C06(ctx):
         cases.append(op_command_mac(g.key(), c, None, gen="ends in 80 00* at a block edge"))
     for n in ([65536, 70001] if not ctx.thorough else [65535, 65536, 65537, 70001, 131072]):
         cases.append(op_command_mac(g.key(), R.randbytes(n), None, gen="command beyond 64 KiB"))
+    # the output length as other integer objects (IntEnum member, __index__-only object)
+    for l in (4, 5, 6, 7, 8):
+        for lf in gens.int_forms(l)[1:]:
+            for _ in range(ctx.n(6, 30)):
+                k = g.key(); c = g.msg(60)
+                cs = op_command_mac(k, c, l, gen="output length as a non-int integer object")
+                cs.call = (lambda k=k, c=c, lf=lf: sm.generate_command_mac(k, c, lf))
+                cases.append(cs)
+                cm = op_mac3(k[:8], k[8:], c, 2, l, gen="output length as a non-int integer object")
+                cm.call = (lambda k=k, c=c, lf=lf: mac.mac_iso9797_3(k[:8], k[8:], c, 2, lf))
+                cases.append(cm)
     for _ in range(ctx.n(300, 1000)):
         cases.append(op_command_mac(g.badkey(), g.msg(), None, gen="malformed", proj="class"))
     for n in ([1 << 20] if not ctx.thorough else [1 << 20, (1 << 20) + 3, 1 << 21]):
@@ -404,6 +415,18 @@ def unpad2(f):
 def C07(ctx):
     g = G(ctx.sub("g")); R = g.R
     cases = []
+    # the command data as any buffer / sequence object: the same cryptogram as for its bytes, or a refusal
+    for _ in range(ctx.n(40, 400)):
+        k = g.key(); d = R.randbytes(R.choice([8, 16, 24, 4, 12, 20, 6, 2]))
+        for t in (sm.EncryptionType.VISA, sm.EncryptionType.MASTERCARD, sm.EncryptionType.EMV):
+            want = canon(lambda: sm.encrypt_command_data(k, d, t))
+            for name, mk in gens.byteslike_forms(d):
+                got = canon(lambda: sm.encrypt_command_data(k, mk(), t))
+                ok = got == want or got.startswith("err ") or got.startswith("uncaught ")
+                if ("cast" in name or "array('I')" in name) and t is sm.EncryptionType.VISA:
+                    continue                             # len() of such a buffer counts items: the Visa length prefix has no agreed reading
+                ctx.check("encipherment depends on the data's bytes only (or is refused)", ok,
+                          f"encrypt_command_data({hx(k)}, <{name}> of {hx(d)}, {t.name}) -> {got[:80]}; bytes form -> {want[:80]}")
     for n in range(0, 256):
         k = g.key()
         tails = [R.randbytes(n)]
